@@ -141,6 +141,35 @@ def is_loop_var(t) -> bool:
     return isinstance(t, tuple) and len(t) == 3 and t[0] == "fresh"
 
 
+def is_attempt_no(t, p=None) -> bool:
+    """`t` is the 1-based number of the current iteration of the attempt loop: the loop variable of
+    `range(1, ...)`, or `v + c` for the variable of `range(a, ...)` with a + c == 1 (a re-numbered loop)."""
+    from ..paths import linear
+
+    if not isinstance(t, tuple):
+        return False
+    lin = linear(t)
+    if lin is None:
+        return False
+    c, terms = lin
+    vs = [(k, v) for k, v in terms.items()]
+    if len(vs) != 1 or not is_loop_var(vs[0][0]) or vs[0][1] != 1 or c != int(c):
+        return False
+    if p is None:
+        return c == 0
+    start = None
+    for e in p.events:
+        if e.kind == "iter" and e.recv is not None and e.recv[0] == "pure" and e.recv[1] == "range":
+            fresh_id = vs[0][0][1]
+            nid = e.node.id
+            if fresh_id == nid or (isinstance(fresh_id, tuple) and fresh_id[-1] == nid):
+                a = e.recv[2]
+                start = ("const", 0) if len(a) == 1 else a[0]
+    if start is None or start[0] != "const" or not isinstance(start[1], int):
+        return c == 0
+    return start[1] + int(c) == 1
+
+
 def _known_funcs() -> set[str] | None:
     import os
 
@@ -178,3 +207,50 @@ def owned_by(prog: Program, fn, allowed, _seen: frozenset = frozenset()) -> bool
         return False
     cs = callers_of(prog, fn)
     return bool(cs) and all(owned_by(prog, c, allowed, _seen | {fn.qual}) for c in cs)
+
+
+def failure_entry(rep, rid: str, prog: Program) -> None:
+    """every failure is judged on its own: handle_exception asks the policy's classifier exactly once about this very
+    exception, normalises the answer and hands (classification, attempt, cause, exc, result) on to _handle_failure
+    unchanged; handle_result hands on the classification it was given for this very result.  No verdict is cached,
+    substituted or carried over."""
+    from ..ctx import engine
+
+    for m in ("handle_exception", "handle_result"):
+        hf = prog.func(f"{STATE}:_RetryState.{m}")
+        rep.analysed(hf.qual)
+        n = 0
+        for p in engine(prog).paths(hf):
+            hfc = [e for e in p.calls() if e.is_repo("_RetryState._handle_failure")]
+            cls = [e for e in p.calls() if e.callback() == "classifier"]
+            norm = [e for e in p.calls(pure=None) if e.is_repo(":_normalize_classification")]
+            n += 1
+            rep.instance(rid, f"{m}|{'|'.join(p.describe()[-2:])[:80]}")
+            problem = None
+            if len(hfc) != 1 or p.exit != ("return", hfc[0].result):
+                problem = f"must end by returning _handle_failure(...) exactly once (found {len(hfc)} calls, exit {p.exit[0]})"
+            else:
+                kw = hfc[0].kwargs
+                want_cause = "exception" if m == "handle_exception" else "result"
+                if kw.get("attempt") != ("param", "attempt") or kw.get("cause") != ("const", want_cause):
+                    problem = f"attempt / cause are not forwarded unchanged: {[(k, show(v)) for k, v in kw.items() if k in ('attempt', 'cause')]}"
+                elif m == "handle_exception":
+                    if kw.get("exc") != ("param", "exc") or kw.get("result") != ("const", None):
+                        problem = "exc / result are not forwarded as (exc, None)"
+                    elif len(cls) != 1 or cls[0].args != [("param", "exc")] or cls[0].recv != attr(SELF, "policy"):
+                        problem = f"the policy's classifier must be asked exactly once about this very exception; found {[[show(a) for a in e.args] for e in cls]}"
+                    elif len(norm) != 1 or norm[0].args != [cls[0].result] or kw.get("classification") != norm[0].result:
+                        problem = f"the classification handed on is {show(kw.get('classification'))}, not the normalised answer the classifier just gave"
+                    elif any(e.kind == "store" for e in p.events):
+                        problem = "classifier verdicts are stored (a cache would let an earlier verdict decide a later failure)"
+                else:
+                    if kw.get("result") != ("param", "result") or kw.get("exc") != ("const", None) or kw.get("classification") != ("param", "classification"):
+                        problem = f"(classification, result, None) are not forwarded unchanged: {[(k, show(v)) for k, v in kw.items()]}"
+                    elif cls:
+                        problem = "handle_result re-classifies"
+            if problem:
+                rep.fail(rid, f"{m}|{problem[:50]}", f"_RetryState.{m}: {problem}", where=path_where(prog, hf.qual, p), function=hf.qual, path=p.describe())
+            else:
+                rep.ok(rid)
+        if n == 0:
+            raise AnalysisError(f"{hf.qual}: no path")
